@@ -225,11 +225,11 @@ def write_evidence(pid, tier, seed, meta, results, known_hits, violations, wall,
             proof_ok += ok
         solver += r.solver_seconds
         ent = {'unit': r.name, 'status': r.status, 'reason': r.reason, 'mode': mode, 'bound': u.get('bound', '') if u else '',
-               'pipeline': u.get('pipeline', 'dfcc') if u else '', 'back_end': 'cbmc 6.11 / CaDiCaL (--sat-solver cadical)' if not (u and ('--cvc5' in u.get('cbmc', '') or '--z3' in u.get('cbmc', ''))) else u.get('cbmc'),
+               'pipeline': u.get('pipeline', 'dfcc') if u else '', 'back_end': 'cbmc 6.11, portfolio MiniSat 2.2.1 | CaDiCaL (first to answer)' if not (u and ('--cvc5' in u.get('cbmc', '') or '--z3' in u.get('cbmc', ''))) else u.get('cbmc'),
                'obligations': n, 'discharged': ok, 'known_finding_obligations': nk, 'advisory_pointer_arith': r.advisory,
                'reach_guards': r.reach, 'vacuous': r.vacuous, 'seconds': round(r.seconds, 2), 'solver_seconds': round(r.solver_seconds, 2),
                'functions': u.funcs if u else [], 'enforced': u.getlist('enforce') if u else [], 'replaced_by_contract': u.getlist('replace') if u else [],
-               'assumed': u.get('assumed', '') if u else '', 'anchors': u.get('anchors', '') if u else '',
+               'assumed': u.get('assumed', '') if u else '', 'advisory_waiver': ((u.get('advisory', '') + ' -- ' + u.get('advisory-reason', '')) if u and u.get('advisory') else ''), 'anchors': u.get('anchors', '') if u else '',
                'failed': [{'obligation': o['name'], 'cbmc': o['id'], 'description': o['description']} for o in r.failed],
                'generator': {k: v for k, v in (u.gen_meta or {}).items() if k != 'functions'} if u else {},
                'by_class': {}}
